@@ -177,6 +177,9 @@ def run_kani_unit(unit, tier, seed):
             full = [k for k in parsed if k.endswith('::' + h['name']) or k == h['name']]
             obs = [f"{unit}.{h['name']}.{o}" for o in h.get('obligations', ['holds'])]
             r['obligations'] += obs
+            if not h.get('complete'):
+                r.setdefault('bounded_obligations', [])
+                r['bounded_obligations'] += obs
             if not full:
                 if r['status'] == 'ok':
                     r['status'] = 'undecided'
